@@ -16,10 +16,12 @@ func init() {
 	register(&Prop{
 		ID:          "C07",
 		Title:       "Messages are isolated: no aliasing between callers and stored state",
-		Explanation: "R07.1 published messages are never written: a taint analysis over SSA marks as published every load of Value.value / item.body, every result of Value.Get/Set and Collection.Get/List/Add/Update/Delete, the Value/OldValue/NewValue of change events, and the `old` argument of every interceptor / expected-check / change function, propagates through field and element loads, slices, type assertions, local variables and module callees (summarised bottom-up), treats proto.Clone and allocations as fresh, and reports stores, map updates, copy-into, append onto a sub-slice, sort and known mutator calls (proto.Merge dst, proto.Reset, fmutils.*, ResponseFilter.Filter, reflection Set/Clear) that reach a published message or a fresh container of published messages. Scope: pkg/resource, pkg/masks, internal/minibus and every hand-written package under pkg/trait. R07.8 no reference crosses the API boundary of a trait model: an exported method neither keeps the caller's message (or a part of it) in the model's state nor stores a reference to the model's state inside the caller's message. R07.2 the message saved by a write is built on proto.Clone(old) (GetAndUpdate) and the caller's message only enters as the source of the masked merge. R07.3 stored items are replaced, never modified (shared with R02.6). Does NOT decide isolation through reflection-based user code or third-party calls missing from the summary table; initial values are stored without copying (constructor input).",
+		Explanation: "R07.1 published messages are never written: a taint analysis over SSA marks as published every load of Value.value / item.body, every result of Value.Get/Set and Collection.Get/List/Add/Update/Delete, the Value/OldValue/NewValue of change events, and the `old` argument of every interceptor / expected-check / change function, propagates through field and element loads, slices, type assertions, local variables and module callees (summarised bottom-up), treats proto.Clone and allocations as fresh, and reports stores, map updates, copy-into, append onto a sub-slice, sort and known mutator calls (proto.Merge dst, proto.Reset, fmutils.*, ResponseFilter.Filter, reflection Set/Clear) that reach a published message or a fresh container of published messages. Scope: pkg/resource, pkg/masks, internal/minibus and every hand-written package under pkg/trait. R07.8 no reference crosses the API boundary of a trait model: an exported method neither keeps the caller's message (or a part of it) in the model's state nor stores a reference to the model's state inside the caller's message. R07.2 the message saved by a write is built on proto.Clone(old) (GetAndUpdate) and the caller's message only enters as the source of the masked merge. R07.3 stored items are replaced, never modified (shared with R02.6). R07.9 an InterceptBefore callback whose written message was given to the enclosing method assigns no reference read out of the stored value (optional scalar pointer, sub-message, list) to a field of that message. R07.10 a model's write method returns the message the resource returned, not its own argument (shared with R14.4). Does NOT decide isolation through reflection-based user code or third-party calls missing from the summary table; initial values are stored without copying (constructor input).",
 		Assumptions: []string{"proto.Clone returns a deep copy; proto.Merge(dst, src) deep-copies from src and writes only dst; fmutils.Filter/Prune and proto.Reset write only their message argument"},
 		Run:         runC07,
 		Controls: []Control{
+			{Name: "interceptor-hands-the-stored-total-to-the-writer", File: "pkg/trait/enterleavesensorpb/model.go", Old: "\t\t\tif inc {\n\t\t\t\tcv++\n\t\t\t}\n\t\t\treturn &cv", New: "\t\t\tif !inc && cur != nil {\n\t\t\t\treturn cur\n\t\t\t}\n\t\t\tif inc {\n\t\t\t\tcv++\n\t\t\t}\n\t\t\treturn &cv", Expect: "R07.9"},
+			{Name: "create-booking-returns-the-callers-message", File: "pkg/trait/bookingpb/model.go", Old: "\treturn msg.(*traits.Booking), err\n}\n\nfunc (m *Model) UpdateBooking", New: "\treturn booking, err\n}\n\nfunc (m *Model) UpdateBooking", Expect: "R07.10"},
 			{Name: "first-write-uses-the-callers-message-via-reflection", File: "pkg/resource/opt.go", Old: "\t\t\tdst = value.ProtoReflect().New().Interface()\n", New: "\t\t\tdst = value.ProtoReflect().Interface()\n", Expect: "R07.2"},
 			{Name: "first-write-stores-the-callers-message", File: "pkg/resource/opt.go", Old: "\t\t\tdst = value.ProtoReflect().New().Interface()\n", New: "\t\t\tdst = value\n", Expect: "R07.2"},
 			{Name: "revert-F56-waste-keeps-callers-record", File: "pkg/trait/wastepb/model.go", Old: "append(m.allWasteRecords, proto.Clone(wr).(*traits.WasteRecord))", New: "append(m.allWasteRecords, proto.Message(wr).(*traits.WasteRecord))", Expect: "R07.8"},
@@ -258,6 +260,125 @@ func runC07(c *an.Ctx) {
 	r078(c)
 	c.Min("R07.8", 20)
 	c.Min("R07.7", 1)
+	r079(c, "R07.9")
+	c.Min("R07.9", 8)
+	// what a write hands back is the library's message, not the caller's own: a model method that returns its argument
+	// gives the caller "the stored value" in memory the caller (and whoever it passed the message to) keeps writing
+	c.Min("R07.10", shareAs(c, "R14.4", "R07.10", r144models, func(k string) bool { return strings.Contains(k, "returns the value the write stored") }))
+}
+
+// r079: what an InterceptBefore callback puts into the message being written is not a part of the stored one. The
+// callback's second parameter is the writer's own message (it is merged into a copy afterwards), its first the
+// stored value. A reference read out of the stored value - an optional scalar's pointer, a sub-message, a list -
+// assigned to a field of the writer's message makes the two share memory: the writer, who still owns its message,
+// edits it after the call and the stored value and every snapshot read earlier change with it. Values are copied
+// (`*p`, proto.Clone) across, never references.
+func r079(c *an.Ctx, rule string) {
+	w := publishedWorld(c)
+	n := 0
+	seenFn := map[*ssa.Function]bool{}
+	for _, fn := range c.Prog.FuncsIn("pkg") {
+		if strings.HasSuffix(c.Prog.RelFile(fn.Pos()), "_test.go") {
+			continue
+		}
+		an.Instrs(fn, func(in ssa.Instruction) {
+			call, ok := in.(ssa.CallInstruction)
+			if !ok || !strings.HasSuffix(an.CalleeName(call), "/pkg/resource.InterceptBefore") || len(call.Common().Args) != 1 {
+				return
+			}
+			var f *ssa.Function
+			switch x := call.Common().Args[0].(type) {
+			case *ssa.MakeClosure:
+				f = x.Fn.(*ssa.Function)
+			case *ssa.Function:
+				f = x
+			case *ssa.ChangeType:
+				if mc, ok := x.X.(*ssa.MakeClosure); ok {
+					f = mc.Fn.(*ssa.Function)
+				} else if ff, ok := x.X.(*ssa.Function); ok {
+					f = ff
+				}
+			}
+			if f == nil || len(f.Params) != 2 || seenFn[f] {
+				return
+			}
+			seenFn[f] = true
+			n++
+			// whose message is being written: one the enclosing function was given (its caller still holds it), or
+			// one it builds itself for this write (nobody else can reach it: sharing into it is invisible)
+			given := false
+			an.Instrs(fn, func(in3 ssa.Instruction) {
+				wc, isC := in3.(*ssa.Call)
+				if !isC {
+					return
+				}
+				for _, a := range wc.Call.Args {
+					if !an.IsProtoMessageType(a.Type()) {
+						continue
+					}
+					for _, s0 := range an.Sources(a) {
+						if _, isP := s0.(*ssa.Parameter); isP {
+							given = true
+						}
+						if u, isU := s0.(*ssa.UnOp); isU && u.Op == token.MUL {
+							if base, _, _, isF := an.FieldOf(u.X); isF {
+								for _, b0 := range an.Sources(base) {
+									if _, isP := b0.(*ssa.Parameter); isP {
+										given = true
+									}
+								}
+							}
+						}
+					}
+				}
+			})
+			if !given {
+				c.SawFunc(an.FuncName(f))
+				c.Ok(rule, an.FuncName(f)+"|puts copies, not parts of the stored value, into the writer's message", f.Pos(), "the written message is built by the method itself")
+				return
+			}
+			_, taint := w.Analyse(f)
+			var bad *ssa.Store
+			an.Instrs(f, func(in2 ssa.Instruction) {
+				st, isSt := in2.(*ssa.Store)
+				if !isSt || taint[st.Val]&an.TSelf == 0 {
+					return
+				}
+				switch st.Val.Type().Underlying().(type) {
+				case *types.Pointer, *types.Slice, *types.Map:
+				default:
+					return
+				}
+				// the address lies inside the writer's message
+				root := st.Addr
+				for depth := 0; depth < 12; depth++ {
+					if fa, isFA := root.(*ssa.FieldAddr); isFA {
+						root = fa.X
+					} else if ia, isIA := root.(*ssa.IndexAddr); isIA {
+						root = ia.X
+					} else {
+						break
+					}
+				}
+				if root == st.Addr {
+					return // a local variable
+				}
+				for _, s0 := range an.Sources(root) {
+					if s0 == ssa.Value(f.Params[1]) {
+						bad = st
+					}
+				}
+			})
+			c.SawFunc(an.FuncName(f))
+			pos := f.Pos()
+			if bad != nil {
+				pos = bad.Pos()
+			}
+			c.Check(bad == nil, rule, an.FuncName(f)+"|puts copies, not parts of the stored value, into the writer's message", pos, "",
+				"the callback assigns a reference read out of the stored value to a field of the message being written: the writer's message and the stored value share that memory, so the writer editing its own message afterwards changes stored state and earlier snapshots")
+		})
+	}
+	c.Count("intercept_before_callbacks", n)
 }
 
 // r072: the caller's message enters only by copy.
